@@ -152,6 +152,30 @@ class Explorer:
 
 # ====================================================================== helpers
 
+def _drop_responders(path, v, depth=0):
+    """Tier 4 with live one-shots: a value that is dropped takes the reply senders it (still) owns with it"""
+    if depth > 4:
+        return
+    name = type(v).__name__
+    if name == 'OneshotTx':
+        if v.cid not in getattr(path, 'sent', {}):
+            d = getattr(path, 'dropped_tx', set())
+            d.add(v.cid)
+            path.dropped_tx = d
+            for w in getattr(path, 'oneshot_waiters', {}).get(v.cid, []):
+                w.woken = True
+                if w.state == 'parked':
+                    w.state = 'ready'
+        return
+    if isinstance(v, Enum):
+        for pl in v.payload.values():
+            for x in pl:
+                _drop_responders(path, x, depth + 1)
+    elif isinstance(v, Agg):
+        for x in v.fields:
+            _drop_responders(path, x, depth + 1)
+
+
 def bool_s(t):
     return S(t, 'bool')
 
@@ -941,6 +965,8 @@ class Interp:
                     dv = None
                 if dv is not None and hasattr(dv, 'on_drop'):
                     dv.on_drop(self)
+                elif dv is not None and getattr(path, 'live_oneshots', False):
+                    _drop_responders(path, dv)
                 bb = term.targets['return']
             elif k == 'assert':
                 op, neg, msg = term.args
